@@ -329,6 +329,10 @@ pub fn generate(r: &mut Rng, c: &GenCfg) -> (Universe, Prob) {
     if r.chance(1, 5) {
         u.filter_order = 1 + r.below(3) as u8;
     }
+    // a provider whose version_sets_in_union iterator carries no size information
+    if !u.unions.is_empty() && r.chance(1, 3) {
+        u.union_iter = 1;
+    }
     let ns = r.below(c.nsoft + 1);
     if ns > 0 {
         // "interesting" soft solvables: excluded, locked out, unknown deps
